@@ -124,4 +124,176 @@ theorem releaseAll_frame (b : B) (l : List QEntry) :
     · exact o1 o h
     · exact o2 o h
 
+/-! ## 2. Session objects: `getSess` / `setSess` -/
+
+theorem getSess_ref {b : B} {r : Nat} {s : Sess} (h : b.getSess r = some s) : s.ref = r := by
+  unfold B.getSess at h
+  have := List.find?_some h
+  simpa using this
+
+theorem find_map_same (l : List Sess) (s : Sess) (h : (l.any fun x => x.ref == s.ref) = true) :
+    (l.map fun x => if x.ref == s.ref then s else x).find? (fun x => x.ref == s.ref) = some s := by
+  induction l with
+  | nil => simp at h
+  | cons x xs ih =>
+    simp only [List.map_cons, List.find?_cons]
+    by_cases hx : (x.ref == s.ref) = true
+    · simp [hx]
+    · simp only [hx, Bool.false_eq_true, ↓reduceIte]
+      simp only [List.any_cons, hx, Bool.false_or] at h
+      exact ih h
+
+theorem getSess_setSess_same (b : B) (s : Sess) : (b.setSess s).getSess s.ref = some s := by
+  unfold B.getSess B.setSess
+  simp only
+  by_cases h : (b.sess.any fun x => x.ref == s.ref) = true
+  · simp only [h, ↓reduceIte]
+    exact find_map_same b.sess s h
+  · simp only [h, Bool.false_eq_true, ↓reduceIte]
+    rw [List.find?_append]
+    have : List.find? (fun x => x.ref == s.ref) b.sess = none := by
+      rw [List.find?_eq_none]
+      intro x hx hh
+      exact h (List.any_eq_true.mpr ⟨x, hx, hh⟩)
+    simp [this]
+
+theorem find_map_ne (l : List Sess) (s : Sess) (r : Nat) (hs : (s.ref == r) = false) :
+    (l.map fun x => if x.ref == s.ref then s else x).find? (fun x => x.ref == r) =
+      l.find? (fun x => x.ref == r) := by
+  induction l with
+  | nil => rfl
+  | cons x xs ih =>
+    simp only [List.map_cons, List.find?_cons]
+    by_cases hx : (x.ref == s.ref) = true
+    · have hxr : (x.ref == r) = false := by
+        have : x.ref = s.ref := by simpa using hx
+        rw [this]; exact hs
+      simp only [hx, ↓reduceIte, hs, hxr]
+      exact ih
+    · simp only [hx, Bool.false_eq_true, ↓reduceIte]
+      split
+      · rfl
+      · exact ih
+
+theorem getSess_setSess_ne (b : B) (s : Sess) (r : Nat) (h : r ≠ s.ref) :
+    (b.setSess s).getSess r = b.getSess r := by
+  unfold B.getSess B.setSess
+  simp only
+  have hs : (s.ref == r) = false := by simpa using fun e => h e.symm
+  split
+  · exact find_map_ne b.sess s r hs
+  · rw [List.find?_append]
+    simp [hs]
+
+theorem setSess_conns (b : B) (s : Sess) : (b.setSess s).conns = b.conns := rfl
+theorem setSess_nextRef (b : B) (s : Sess) : (b.setSess s).nextRef = b.nextRef := rfl
+theorem setSess_store (b : B) (s : Sess) : (b.setSess s).store = b.store := rfl
+theorem setSess_topics (b : B) (s : Sess) : (b.setSess s).topics = b.topics := rfl
+
+/-- the list of session references, in creation order -/
+def refs (b : B) : List Nat := b.sess.map (·.ref)
+
+theorem getSess_isSome_iff (b : B) (r : Nat) : (b.getSess r).isSome = true ↔ r ∈ refs b := by
+  unfold B.getSess refs
+  rw [List.find?_isSome]
+  simp only [List.mem_map, beq_iff_eq]
+
+theorem refs_setSess_mem (b : B) (s : Sess) (h : s.ref ∈ refs b) : refs (b.setSess s) = refs b := by
+  unfold refs B.setSess
+  have : (b.sess.any fun x => x.ref == s.ref) = true := by
+    simp only [refs, List.mem_map] at h
+    obtain ⟨x, hx, e⟩ := h
+    exact List.any_eq_true.mpr ⟨x, hx, by simp [e]⟩
+  simp only [this, ↓reduceIte, List.map_map]
+  apply List.map_congr_left
+  intro x _
+  simp only [Function.comp_apply]
+  split
+  · rename_i hx; exact (by simpa using hx : x.ref = s.ref).symm
+  · rfl
+
+theorem refs_setSess_new (b : B) (s : Sess) (h : s.ref ∉ refs b) : refs (b.setSess s) = refs b ++ [s.ref] := by
+  unfold refs B.setSess
+  have : (b.sess.any fun x => x.ref == s.ref) = false := by
+    rw [List.any_eq_false]
+    intro x hx hh
+    exact h (List.mem_map.mpr ⟨x, hx, by simpa using hh⟩)
+  simp [this]
+
+/-- the inbound QoS 2 queue of the session object `r` (empty if there is none) -/
+def pub2inOf (b : B) (r : Nat) : List QEntry :=
+  match b.getSess r with
+  | some s => s.pub2in
+  | none => []
+
+/-- connection `c` is live and bound to session object `r` -/
+def bound (b : B) (c r : Nat) : Bool :=
+  match b.getConn c with
+  | some cn => cn.alive && cn.sess == r
+  | none => false
+
+/-- the session object of a connection -/
+def sessOf (b : B) (c : Nat) : Option Sess := (b.getConn c).bind (fun cn => b.getSess cn.sess)
+
+/-! ## 3. One packet on a live connection -/
+
+theorem alive_congr {b b' : B} (h : b'.conns = b.conns) (c : Nat) : b'.alive c = b.alive c := by
+  unfold B.alive B.getConn; rw [h]
+
+theorem alive_of {b : B} {c : Nat} {cn : Conn} (hc : b.getConn c = some cn) (ha : cn.alive = true) :
+    b.alive c = true := by
+  unfold B.alive; rw [hc]; exact ha
+
+theorem send_alive {b : B} {c : Nat} (h : b.alive c = true) (p : Packet) : send b c p = [.send c p] := by
+  unfold send; simp [h]
+
+/-- a live connection is in the table -/
+theorem alive_iff (b : B) (c : Nat) :
+    b.alive c = true ↔ ∃ cn, b.getConn c = some cn ∧ cn.alive = true := by
+  unfold B.alive
+  cases h : b.getConn c with
+  | none => simp
+  | some cn => simp
+
+section packet
+variable {b : B} {c : Nat} {cn : Conn} {s : Sess}
+
+theorem packet_publish2 (hc : b.getConn c = some cn) (ha : cn.alive = true)
+    (hs : b.getSess cn.sess = some s) (p : Pub) (hq : p.qos = 2) :
+    packet b c (.publish p) =
+      (b.setSess { s with pub2in := q2Wait s.pub2in p }, [.send c (.pubrec p.pktid)]) := by
+  simp [packet, hc, ha, hs, hq, send_alive (alive_of hc ha)]
+
+theorem packet_publish1 (hc : b.getConn c = some cn) (ha : cn.alive = true)
+    (hs : b.getSess cn.sess = some s) (p : Pub) (hq : p.qos = 1) :
+    packet b c (.publish p) =
+      ((onPublish b ⟨p, false⟩).1, .send c (.puback p.pktid) :: (onPublish b ⟨p, false⟩).2.2.1) := by
+  simp [packet, hc, ha, hs, hq, send_alive (alive_of hc ha)]
+
+theorem packet_publish0 (hc : b.getConn c = some cn) (ha : cn.alive = true)
+    (hs : b.getSess cn.sess = some s) (p : Pub) (hq : p.qos = 0) :
+    packet b c (.publish p) = ((onPublish b ⟨p, false⟩).1, (onPublish b ⟨p, false⟩).2.2.1) := by
+  simp [packet, hc, ha, hs, hq]
+
+theorem packet_pubrel (hc : b.getConn c = some cn) (ha : cn.alive = true)
+    (hs : b.getSess cn.sess = some s) (id : Nat) :
+    packet b c (.pubrel id) =
+      ((releaseAll (b.setSess { s with pub2in := (q2Acked (q2Ack s.pub2in id)).1 })
+          (q2Acked (q2Ack s.pub2in id)).2).1,
+       (releaseAll (b.setSess { s with pub2in := (q2Acked (q2Ack s.pub2in id)).1 })
+          (q2Acked (q2Ack s.pub2in id)).2).2 ++ [.send c (.pubcomp id)]) := by
+  have hal : (releaseAll (b.setSess { s with pub2in := (q2Acked (q2Ack s.pub2in id)).1 })
+      (q2Acked (q2Ack s.pub2in id)).2).1.alive c = true := by
+    rw [alive_congr (releaseAll_frame _ _).1.conns, alive_congr (setSess_conns _ _)]
+    exact alive_of hc ha
+  simp only [packet, hc, ha, hs, Bool.not_true, Bool.false_eq_true, ↓reduceIte]
+  rw [send_alive hal]
+
+theorem packet_pubrec (hc : b.getConn c = some cn) (ha : cn.alive = true)
+    (hs : b.getSess cn.sess = some s) (id : Nat) :
+    packet b c (.pubrec id) = (b, [.send c (.pubrel id)]) := by
+  simp [packet, hc, ha, hs, send_alive (alive_of hc ha)]
+
+end packet
+
 end Mqtt.Proofs.BrokerQos
